@@ -221,8 +221,15 @@ def run(ctx) -> None:
         ctx.check("R7", good, f"Version.__str__: segment '{seg}' printed when it `is not None`", f"{M}.Version.__str__: segment '{seg}' is tested by truthiness (a number of 0 is dropped)",
                   f"`if {unparse(t)}`: 1.0.{seg}0 would print without its {seg} segment", loc=vs.loc(st), witness=f"1.0.{seg}0")
     ctx.floor("R7", "optional segments in Version.__str__", n_seg, 5)
-    from checks.c15 import to_pep440_rule
+    from checks.c15 import to_pep440_rule, letter_normalisation
     to_pep440_rule(ctx, "R7")
+    # PEP 440 "alternate spellings": exactly these are normalised, each to its short form
+    norm = letter_normalisation(ctx)
+    want_norm = {"alpha": "a", "beta": "b", "c": "rc", "pre": "rc", "preview": "rc", "rev": "post", "r": "post"}
+    ctx.check("R7", norm == want_norm, "_parse_letter_version normalises alpha/beta/c/pre/preview/rev/r as PEP 440 prescribes",
+              f"{M}._parse_letter_version: alternate pre/post-release spellings are not normalised as PEP 440 prescribes",
+              f"missing {sorted(set(want_norm) - set(norm))}, extra {sorted(set(norm) - set(want_norm))}, different {sorted(k for k in norm if k in want_norm and norm[k] != want_norm[k])}: "
+              f"e.g. 1.0preview2 must equal 1.0rc2; unnormalised it sorts by its raw letters", loc=f"src/bumpver/{M}.py", witness=["1.0.0-preview2", "1.0.0-rc1"])
     plv = prog.function(f"{M}._parse_letter_version")
     g = cfgs.get(plv.fq)
     # the lower-cased spelling is stored back into the parameter or into a local; every spelling test reads that variable
